@@ -11,6 +11,7 @@ import scipy.sparse.csgraph as cg
 from ase.geometry import complete_cell, get_distances
 
 from matsim import gens
+from matsim.mic import exact_mic_distances
 
 SLACK = 1e-6
 
@@ -70,7 +71,7 @@ def wellformed_clusters(atoms, params, clusters):
                 errs.append(("CELL_PBC", "cluster %d prototype cell pbc=%s natoms=%d" % (ic, list(pc.get_pbc()), len(pc))))
         if len(idx) > 1 and not np.isnan(R[idx]).any():
             uidx = sorted(set(idx))
-            _, D = get_distances(atoms.positions[uidx], cell=cell, pbc=pbc)
+            D = exact_mic_distances(atoms.positions[uidx], cell, pbc)
             M = D - R[uidx][:, None] - R[uidx][None, :]
             nc, _ = cg.connected_components(M <= bt + SLACK)
             if nc != 1:
